@@ -7,7 +7,7 @@
    * None is a raised exception (IndexError of l[i], [][0], l.pop(0), del l[i] ; ValueError of math.log / math.sqrt).
    The translator only composes these and the primitives of PySem.v. *)
 From Coq Require Import List Bool Arith ZArith Lia.
-From RV Require Import Val Syntax Rho Online Dense PySem.
+From RV Require Import Val Syntax Rho Online IA Dense PySem.
 Import ListNotations.
 
 Section PyDense.
@@ -57,3 +57,66 @@ Arguments os_truthy {VS T} o.
 Arguments os_get {VS T} o.
 Arguments ts_max {T} tltb a b.
 Arguments ts_min {T} tltb a b.
+
+(* ---------------- the bounded operations (once_timed / historically_timed) ---------------- *)
+Section PyDenseWin.
+Context {VS : Val}.
+Variable T : Type.
+Variables tltb teqb : T -> T -> bool.
+
+(* self.residual_start / self.max: -float("inf") or float("inf") before the first sample, then the stamp of a sample.
+   T holds the stamps samples carry (never -inf); XNeg is below and XPos is above or equal to every stamp:
+   the comparisons below are Python's on floats, with == between XPos and a stamp never asked for by the code. *)
+Inductive xstamp := XNeg | XFin (t : T) | XPos.
+Definition xs_ltb (a b : xstamp) : bool :=
+  match a, b with
+  | XFin x, XFin y => tltb x y
+  | XNeg, XNeg | XPos, _ => false
+  | XNeg, _ | XFin _, XPos => true
+  | XFin _, XNeg => false
+  end.
+Definition xs_eqb (a b : xstamp) : bool :=
+  match a, b with XFin x, XFin y => teqb x y | XNeg, XNeg | XPos, XPos => true | _, _ => false end.
+(* a sample / piece whose stamp is read from residual_start: -inf / +inf is not a stamp of the model *)
+Definition xs_get (a : xstamp) : option T := match a with XFin t => Some t | _ => None end.
+
+(* a piece (lo, hi, v): a 3-tuple; p[0], p[1], p[2] *)
+Definition ppiece : Type := (T * T * V)%type.
+Definition pp_lo (p : ppiece) : T := fst (fst p).
+Definition pp_hi (p : ppiece) : T := snd (fst p).
+Definition pp_v (p : ppiece) : V := snd p.
+
+(* x != prev where prev is float("nan") (None) or a value: nan differs from everything *)
+Definition nv_neq (x : V) (prev : option V) : bool := match prev with Some p => negb (veq x p) | None => true end.
+
+(* reading, as a value, a variable that holds float("nan") (None) or a value: nan is not a value of the model *)
+Definition nv_get (x : option V) : option V := x.
+
+(* Semantics.A == Semantics.B (members of an Enum: identity) *)
+Definition sem_eqb (a b : semantics) : bool :=
+  match a, b with
+  | Standard, Standard | OutputRobustness, OutputRobustness | InputRobustness, InputRobustness
+  | OutputVacuity, OutputVacuity | InputVacuity, InputVacuity => true
+  | _, _ => false
+  end.
+
+(* enumerate(l) *)
+Definition py_enumerate {A : Type} (l : list A) : list (Z * A) := combine (map Z.of_nat (seq 0 (length l))) l.
+
+(* intersect.intersects(x1, x2, y1, y2) (hand model, pinned by digest): x1 <= y2 and y1 <= x2 *)
+Definition py_intersects (x1 x2 y1 y2 : T) : bool := (tltb x1 y2 || teqb x1 y2) && (tltb y1 x2 || teqb y1 x2).
+End PyDenseWin.
+
+Arguments xstamp T : clear implicits.
+Arguments XNeg {T}.
+Arguments XFin {T} t.
+Arguments XPos {T}.
+Arguments xs_ltb {T} tltb a b.
+Arguments xs_eqb {T} teqb a b.
+Arguments xs_get {T} a.
+Arguments ppiece {VS} T.
+Arguments pp_lo {VS T} p.
+Arguments pp_hi {VS T} p.
+Arguments pp_v {VS T} p.
+Arguments py_intersects {T} tltb teqb x1 x2 y1 y2.
+Arguments nv_get {VS} x.
